@@ -205,12 +205,22 @@ def image_dict(img: Dict[str, Any], inline: bool, abbreviate: bool = True) -> Di
         if fl:
             names = ABBR if sp.get("Fv", True) else LONG
             d[key("F")] = names[fl[0]] if len(fl) == 1 else [names[f] for f in fl]
+        # rarely used entries that do not change the samples: interpolate flag, identity decode array, rendering intent
+        for k, v in (img.get("extras") or {}).items():
+            d[k] = v
     else:
         d = {"Width": img["w"], "Height": img["h"], "BitsPerComponent": bpc, "ColorSpace": CS_LONG[kind]}
         d = dict({"Type": "XObject", "Subtype": "Image"}, **d)
         if fl:
             d["Filter"] = LONG[fl[0]] if len(fl) == 1 else [LONG[f] for f in fl]
     return d
+
+
+EXTRA_ENTRIES = [("I", True), ("Interpolate", False), ("Intent", "Perceptual")]
+
+
+def random_extras(rng) -> Dict[str, Any]:
+    return dict(rng.sample(EXTRA_ENTRIES, rng.randint(0, 2)))
 
 
 def random_spell(rng) -> Dict[str, bool]:
